@@ -85,6 +85,24 @@ def _total_image_expr(e, attr):
     return False
 
 
+def _inline_local(build, e):
+    """as_states(A.states) with `def as_states(names): return {State(s) for s in names}` nested in build: the body with the
+    argument substituted"""
+    import copy
+    if not (isinstance(e, ast.Call) and isinstance(e.func, ast.Name) and e.func.id in build.nested and not e.keywords):
+        return e
+    h = build.nested[e.func.id]
+    body = [b for b in h.node.body if not (isinstance(b, ast.Expr) and isinstance(b.value, ast.Constant))]
+    if len(body) != 1 or not isinstance(body[0], ast.Return) or body[0].value is None or len(h.params) != len(e.args):
+        return e
+    sub = dict(zip(h.params, e.args))
+
+    class T(ast.NodeTransformer):
+        def visit_Name(self, n):
+            return copy.deepcopy(sub[n.id]) if isinstance(n.ctx, ast.Load) and n.id in sub else n
+    return ast.fix_missing_locations(T().visit(copy.deepcopy(body[0].value)))
+
+
 def check_builder_fields(ctx, rep):
     """the state sets handed to the constructor are exactly the declared ones: Q is the image of A.states and F the image
     of A.final_states, element by element, with no condition that could filter a declared state away"""
@@ -110,6 +128,7 @@ def check_builder_fields(ctx, rep):
             if arg is None:
                 continue
             n += 1
+            arg = _inline_local(build, arg)
             if not isinstance(arg, ast.Name):
                 if _total_image_expr(arg, attr):
                     rep.holds(RULE + '.field', build, arg, '{} is the element-wise image of A.{}'.format(pname, attr))
@@ -121,7 +140,7 @@ def check_builder_fields(ctx, rep):
             aug = [st for st in walk_no_nested(build.node) if isinstance(st, ast.AugAssign) and isinstance(st.target, ast.Name) and st.target.id == name]
             muts = [c for c in walk_no_nested(build.node) if isinstance(c, ast.Call) and isinstance(c.func, ast.Attribute) and isinstance(c.func.value, ast.Name) and c.func.value.id == name
                     and c.func.attr in ('add', 'update', 'discard', 'remove', 'clear', 'pop', 'difference_update', 'intersection_update')]
-            if len(defs) == 1 and not aug and not muts and _total_image_expr(defs[0].value, attr):
+            if len(defs) == 1 and not aug and not muts and _total_image_expr(_inline_local(build, defs[0].value), attr):
                 rep.holds(RULE + '.field', build, defs[0], '{} is the element-wise image of A.{}: every declared state is kept'.format(pname, attr))
                 continue
             # loop form: X = set(); for s in A.<attr>: X.add(State(s))  with no condition around the add
